@@ -1025,10 +1025,10 @@ func (g *Gen) obsSpec() *ObsSpec {
 			o.Tuple = t
 		}
 	}
-	// observed comps
-	n := R.Intn(3)
+	// observed comps: mostly none or one, so that observers fire often enough to be judged both ways
+	n := []int{0, 0, 0, 0, 1, 1, 1, 1, 1, 2}[R.Intn(10)]
 	if o.Tuple >= 0 {
-		n = R.Intn(2)
+		n = []int{0, 0, 0, 1}[R.Intn(4)]
 	}
 	for i := 0; i < n; i++ {
 		c := g.comp()
@@ -1039,17 +1039,17 @@ func (g *Gen) obsSpec() *ObsSpec {
 			o.Comps = append(o.Comps, c)
 		}
 	}
-	nw := R.Intn(3)
+	nw := []int{0, 0, 0, 0, 0, 1, 1, 1, 1, 2}[R.Intn(10)]
 	for i := 0; i < nw; i++ {
 		c := g.comp()
 		if !SetOf(o.With...).Has(c) {
 			o.With = append(o.With, c)
 		}
 	}
-	switch R.Intn(4) {
+	switch R.Intn(8) {
 	case 0:
 		o.Exclusive = true
-	case 1:
+	case 1, 2:
 		c := g.comp()
 		if !SetOf(o.With...).Has(c) {
 			o.Without = append(o.Without, c)
